@@ -28,6 +28,7 @@ import (
 	"encoding/binary"
 	"encoding/json"
 	"fmt"
+	"hash/fnv"
 	"math"
 	"math/rand"
 	"os"
@@ -371,13 +372,9 @@ const waitMax = 10 * time.Second
 func segName(id int) string { return fmt.Sprintf("_%05d.wal", id) }
 
 func segFiles(dir string) ([]string, error) {
-	// the order Engine.reloadCache / WAL.ClosedSegments use: Glob + sort.Strings
-	names, err := filepath.Glob(filepath.Join(dir, "_*.wal"))
-	if err != nil {
-		return nil, err
-	}
-	sort.Strings(names)
-	return names, nil
+	// the order Engine.reloadCache, WAL.Open and WAL.ClosedSegments use (tsm1.segmentFileNames): a WAL object that was
+	// never opened has no current segment, so ClosedSegments returns every segment file in that order
+	return tsm1.NewWAL(dir, 0, 0, tsdb.EngineTags{}).ClosedSegments()
 }
 
 func idOf(path string) (int, error) {
@@ -970,6 +967,14 @@ func runCase(c *caseT, env *rt.Env, salt int) (res rt.Result, retry bool) {
 	}()
 	nontrivial := false
 	nFlush := 0
+	maxID := 0
+	for i := range c.Steps {
+		for _, sg := range c.Steps[i].Exp.Segs {
+			if sg.ID > maxID {
+				maxID = sg.ID
+			}
+		}
+	}
 	tornSeg := 0       // spec id of the segment that was continued after a reopen cut its torn tail
 	afterTorn := false // an entry was appended to that segment
 	for i := range c.Steps {
@@ -989,6 +994,10 @@ func runCase(c *caseT, env *rt.Env, salt int) (res rt.Result, retry bool) {
 		fail := func(x *rt.Result) (rt.Result, bool) {
 			if x.Step < 0 && x.Kind != "infra" {
 				x.Step = i
+			}
+			if x.Kind != "infra" && c.Base < 100000 && c.Base+maxID >= 100000 {
+				// segment ids of this history outgrow the five digits of the file name pattern
+				x.Patterns = append(x.Patterns, "segment_ids_cross_99999")
 			}
 			if afterTorn && x.Kind != "infra" {
 				// the failing history appended to a segment whose torn tail the loader had cut after WAL.Open sought its end
@@ -1168,7 +1177,16 @@ func runCase(c *caseT, env *rt.Env, salt int) (res rt.Result, retry bool) {
 		drift = append(drift, d)
 	}
 	sort.Strings(drift)
-	return rt.Result{OK: true, Evals: r.evals, Nontrivial: nontrivial || nFlush >= 2, Drift: drift}, false
+	h := fnv.New64a()
+	for i := range c.Steps {
+		s := &c.Steps[i]
+		fmt.Fprintf(h, "%s %d %d %d %v;", s.A, s.N, s.J, s.Tz, s.IDs)
+	}
+	for i := range c.Ops {
+		fmt.Fprintf(h, "%v;", c.Ops[i])
+	}
+	sig := fmt.Sprintf("%016x/%d/%d", h.Sum64(), c.Variant, c.Base)
+	return rt.Result{OK: true, Evals: r.evals, Nontrivial: nontrivial || nFlush >= 2, Drift: drift, Sig: sig}, false
 }
 
 // scratchBase prefers a memory file system: the driver issues an fsync per write, and a process-crash model does not
